@@ -32,7 +32,18 @@
 (*           (obj[f].append(rec), obj[f][r]['size'] = s), a list replaced  *)
 (*           by assignment, a field deleted; then it is dumped again.  The *)
 (*           design recomputes the width table at EVERY dump, so all the   *)
-(*           invariants speak about the CURRENT records.                   *)
+(*           invariants speak about the CURRENT records.  Records are      *)
+(*           POSITIONS of a list: two records with equal content (the same *)
+(*           line twice) are still two records, an in-place edit changes   *)
+(*           one position only (EditIsLocal) -- also when the object was   *)
+(*           obtained by parsing (start.origin = "parsed").                *)
+(*   SetBeh / OtherSet                                                     *)
+(*           size_field_behavior is state of ONE object (opt.beh; a fresh  *)
+(*           Release starts at the documented default apt-ftparchive,      *)
+(*           opt.set = FALSE).  OtherSet is a step of ANOTHER live object  *)
+(*           (of class c: created if need be, its behaviour set to v,      *)
+(*           dumped): it changes nothing of the object under observation,  *)
+(*           whose next dump must still follow its own records and option. *)
 (*                                                                         *)
 (* The width computation needs the records of a field only where the width *)
 (* depends on them (PdiffIndex; Release with dak).  The design iterates    *)
@@ -50,10 +61,26 @@
 (* remembers the width table of the first dump until a field is assigned   *)
 (* or deleted (but not when a list is changed in place): after an in-place *)
 (* growth of the longest size TLC reports WidthRule violated               *)
-(* (MC_MultiValued_neg_cache.cfg).  All were tried; props/c12.py re-runs   *)
-(* IterateAllFields and CacheWidths in every check and the other two       *)
-(* configurations in the thorough tier, and fails (exit 2) if TLC stops    *)
-(* reporting the violation.                                                *)
+(* (MC_MultiValued_neg_cache.cfg).  SharedEqualRecords = TRUE lets records *)
+(* parsed from identical lines be ONE object (an in-place edit of one      *)
+(* position shows at every position with the same content): EditIsLocal is *)
+(* violated (MC_MultiValued_neg_shared.cfg).  ClassLevelOption = TRUE      *)
+(* keeps size_field_behavior in one place for all Release objects (the     *)
+(* last value set on ANY object wins, fresh objects do not start at the    *)
+(* default): WidthTable is violated (MC_MultiValued_neg_classopt.cfg).     *)
+(* All were tried; props/c12.py re-runs                                    *)
+(* IterateAllFields, CacheWidths, SharedEqualRecords and ClassLevelOption  *)
+(* in every check and the other two configurations in the thorough tier,   *)
+(* and fails (exit 2) if TLC stops reporting the violation.                *)
+(*                                                                         *)
+(* Size dimension (notes/SIZE_STRESS.md): the model is abstract in the     *)
+(* number of records and in the length of every token except the size; the *)
+(* width table depends only on the SET of size lengths of a field.  The    *)
+(* binding therefore may replicate the records of a CASE (10/100/1000      *)
+(* records, identical or fresh copies: a copy has the layout of its        *)
+(* original line) and choose any length for digests and names without      *)
+(* changing what the model expects; sizes of up to 25 digits (2^31, 2^63,  *)
+(* leading zeros) are shapes of the model.                                 *)
 (*                                                                         *)
 (* The single-line form (the only record of a field written on the header  *)
 (* line, "SHA1-Current: <hash> <size>", exposed as ONE mapping instead of  *)
@@ -91,11 +118,16 @@ CONSTANTS Tables,            \* class -> <<[f |-> field name, subs |-> <<sub-fie
           IterateAllFields,  \* negative control: width computation iterates over ALL fields of the class
           SplitEverySpace,   \* negative control: Parse splits at every blank
           CacheWidths,       \* negative control: the width table of the first dump is kept until a field is assigned/deleted
+          SharedEqualRecords,\* negative control: records parsed from identical lines are one shared object
+          ClassLevelOption,  \* negative control: size_field_behavior is shared by all Release objects
           Emit,              \* print CASE lines (and the tables)
           EmitOff            \* rotates the sample of the modes with emitmod > 1 (set from the seed)
 
 VARIABLES mode,              \* the enumeration mode: [name, uniform, maxf, heavy, emitmod, maxmut, flimit]
-          cls, beh,          \* configuration: class, Release.size_field_behavior ("-" for the other classes)
+          cls,               \* class of the object under observation
+          start,             \* how it was made: [beh, set, origin ("built" from records | "parsed" from text)] (never changes)
+          opt,               \* [beh |-> its size_field_behavior ("-": not a Release), set |-> assigned explicitly?,
+                             \*  shared |-> last value assigned on ANY Release object (read only if ClassLevelOption)]
           shape,             \* the uniform shape (NoShape when the mode is not uniform)
           para,              \* field index -> [form, recs]: the structured fields PRESENT in the object
           phase,             \* "build" | "widths" | "dumped" | "parsed"
@@ -107,7 +139,8 @@ VARIABLES mode,              \* the enumeration mode: [name, uniform, maxf, heav
           hist,              \* modes with maxmut > 0: the history (dumps with their expected layout, mutations)
           cache              \* [valid, w]: remembered width table (always NoCache unless CacheWidths)
 
-vars == <<mode, cls, beh, shape, para, phase, widths, text, parsed, res, nmut, hist, cache>>
+vars == <<mode, cls, start, opt, shape, para, phase, widths, text, parsed, res, nmut, hist, cache>>
+beh  == opt.beh      \* the documented behaviour of this object
 
 ----------------------------------------------------------------------------
 (* The five class tables, transcribed from the "Multivalued fields" lists   *)
@@ -221,6 +254,9 @@ MMkRecsOff(subs, sizes, off) ==
          len |-> IF subs[i] = "size" THEN sizes[r]
                  ELSE IF MKindLen(subs[i]) > 0 THEN MKindLen(subs[i]) ELSE 3 + 4 * r + i]]]
 MMkRecs(subs, sizes) == MMkRecsOff(subs, sizes, 0)
+\* a shape with dup = TRUE: every record is the SAME content as the first one (identical lines)
+MMkRecsD(subs, sh, off) == IF sh.dup THEN [r \in 1..Len(sh.sizes) |-> MMkRecsOff(subs, <<sh.sizes[1]>>, off)[1]]
+                           ELSE MMkRecsOff(subs, sh.sizes, off)
 MPairs(rec) == [i \in 1..Len(rec) |-> <<rec[i].id, rec[i].len>>]
 
 RECURSIVE MEndCol(_, _)
@@ -228,7 +264,7 @@ MEndCol(line, i) == IF i = 0 THEN 0 ELSE MEndCol(line, i - 1) + line[i].pad + li
 MMask(S) == FoldSet(LAMBDA f, acc : acc + 2 ^ (f - 1), 0, S)
 
 ----------------------------------------------------------------------------
-NoShape == [form |-> "none", sizes |-> <<>>]
+NoShape == [form |-> "none", sizes |-> <<>>, dup |-> FALSE]
 NoCache == [valid |-> FALSE, w |-> <<>>]
 \* (the mode's small attributes are carried in the state: TLC re-evaluates Modes on every use)
 ModeDef      == CHOOSE m \in Modes : m.name = mode.name
@@ -240,7 +276,12 @@ Subs(f) == MSubs(Tables, cls, f)
 Init == /\ \E m \in Modes : /\ mode = [name |-> m.name, uniform |-> m.uniform, maxf |-> m.maxf,
                                         heavy |-> m.heavy, emitmod |-> m.emitmod,
                                         maxmut |-> m.maxmut, flimit |-> m.flimit]
-                            /\ \E cf \in m.configs : cls = cf[1] /\ beh = cf[2]
+                            /\ \E cf \in m.configs : \E o \in m.origins :
+                                  LET b == IF cf[2] = "default" THEN Apt ELSE cf[2]
+                                      st == cf[2] \notin {"default", "-"} IN
+                                  /\ cls = cf[1]
+                                  /\ start = [beh |-> b, set |-> st, origin |-> o]
+                                  /\ opt = [beh |-> b, set |-> st, shared |-> b]
                             /\ shape \in (IF m.uniform THEN m.shapes ELSE {NoShape})
         /\ para = <<>> /\ phase = "build" /\ widths = <<>> /\ text = <<>> /\ parsed = <<>> /\ res = "ok"
         /\ nmut = 0 /\ hist = <<>> /\ cache = NoCache
@@ -248,21 +289,23 @@ Init == /\ \E m \in Modes : /\ mode = [name |-> m.name, uniform |-> m.uniform, m
 \* obj[field] = [record, ...]  (or one mapping: single-line form)
 BuildWith(f, e) == /\ phase = "build"
                    /\ f \in 1..NFields /\ f \notin DOMAIN para
-                   /\ MEntryOK(Subs(f), e)
+                   /\ MEntryOK(Subs(f), e) = TRUE     \* ("= TRUE": evaluated as a value, not expanded on the Java stack)
                    /\ para' = MExt(para, f, e)
                    /\ cache' = NoCache
-                   /\ UNCHANGED <<mode, cls, beh, shape, phase, widths, text, parsed, res, nmut, hist>>
+                   /\ UNCHANGED <<mode, cls, start, opt, shape, phase, widths, text, parsed, res, nmut, hist>>
 \* bounded enumeration: fields are added in table order (every subset is reached exactly once),
 \* before the first dump
-Build(f, sh) == /\ phase = "build" /\ hist = <<>>
+NoDumpYet == \A i \in 1..Len(hist) : hist[i][1] = "other"
+Build(f, sh) == /\ phase = "build" /\ NoDumpYet
                 /\ Cardinality(DOMAIN para) < mode.maxf /\ f <= mode.flimit
                 /\ \A g \in DOMAIN para : g < f
-                /\ BuildWith(f, [form |-> sh.form, recs |-> MMkRecs(Subs(f), sh.sizes)])
+                /\ BuildWith(f, [form |-> sh.form, recs |-> MMkRecsD(Subs(f), sh, 0)])
 
 \* one CASE line: mode, class, behaviour, "unspecified" flag, per present field
 \* F: <<index, name, form, width (0: none), width promised?, names of the parsed record, lines of <<pad, id, len>>>>
 \* and, in a mode with mutations, the history H: <<"dump", F>>, <<"append", f, record>>,
-\* <<"setsize", f, r, token>>, <<"assign", f, records>>, <<"delete", f>> (tokens as <<id, len>>)
+\* <<"setsize", f, r, token>>, <<"assign", f, records>>, <<"delete", f>> (tokens as <<id, len>>),
+\* <<"setbeh", v>>, <<"other", class, v>>; o / b0 / bs0: origin and option of the object at the start
 CaseF(pp) ==
     LET present == SetToSortSeq(DOMAIN para, <) IN
     [k \in 1..Len(present) |->
@@ -272,7 +315,8 @@ CaseF(pp) ==
           MNames(pp[f].recs[1]),
           [r \in 1..Len(text[f].lines) |-> [i \in 1..Len(text[f].lines[r]) |->
               <<text[f].lines[r][i].pad, text[f].lines[r][i].id, text[f].lines[r][i].len>>]] >>]
-CaseOf(pp, h) == [m |-> mode.name, c |-> cls, b |-> beh, u |-> MUnspecified(cls, beh, para), F |-> CaseF(pp), H |-> h]
+CaseOf(pp, h) == [m |-> mode.name, c |-> cls, b |-> beh, u |-> MUnspecified(cls, beh, para), F |-> CaseF(pp), H |-> h,
+                  o |-> start.origin, b0 |-> start.beh, bs0 |-> start.set]
 \* sampling of the big modes for the replay (all cases are model-checked, the selected ones are
 \* printed): in a uniform mode with emitmod = number of shapes every subset is printed with
 \* exactly one shape; subsets with <= 1 present or <= 1 absent field are always printed; in a
@@ -291,35 +335,37 @@ Selected == IF mode.maxmut > 0
 \* obj.dump(), first half: the width table (this is where an absent field hurts); the design
 \* computes it from the current records at every dump
 IterSet == IF IterateAllFields THEN 1..NFields ELSE DOMAIN para
-WTable  == IF CacheWidths /\ cache.valid THEN cache.w ELSE MWidthTable(Tables, cls, beh, para)
+\* the behaviour the dump goes by: the object's own option (negative control: the class-level one)
+EBeh    == IF ClassLevelOption /\ cls = "Release" THEN opt.shared ELSE opt.beh
+WTable  == IF CacheWidths /\ cache.valid THEN cache.w ELSE MWidthTable(Tables, cls, EBeh, para)
 Widths == /\ phase = "build"
-          /\ res' = MDumpRes(cls, beh, DOMAIN para, IterSet)
+          /\ res' = MDumpRes(cls, EBeh, DOMAIN para, IterSet)
           /\ widths' = (IF res' = "ok" THEN WTable ELSE <<>>)
           /\ cache' = (IF CacheWidths /\ res' = "ok" THEN [valid |-> TRUE, w |-> WTable] ELSE cache)
           /\ phase' = "widths"
-          /\ UNCHANGED <<mode, cls, beh, shape, para, text, parsed, nmut, hist>>
+          /\ UNCHANGED <<mode, cls, start, opt, shape, para, text, parsed, nmut, hist>>
 \* second half: every present field is written with its width
 \* (a mode with heavy = FALSE goes on only with the paragraphs that are printed as CASE lines)
 Write  == /\ phase = "widths" /\ res = "ok"
           /\ (IF mode.heavy THEN TRUE ELSE Selected)
           /\ text' = MCanonText(Tables, cls, para, widths)
           /\ phase' = "dumped"
-          /\ UNCHANGED <<mode, cls, beh, shape, para, widths, parsed, res, nmut, hist, cache>>
+          /\ UNCHANGED <<mode, cls, start, opt, shape, para, widths, parsed, res, nmut, hist, cache>>
 \* both halves in one step, with t as the text written (trace validation: t = the observed text)
 DumpTo(t) == /\ phase = "build"
-             /\ res' = MDumpRes(cls, beh, DOMAIN para, IterSet)
+             /\ res' = MDumpRes(cls, EBeh, DOMAIN para, IterSet)
              /\ widths' = (IF res' = "ok" THEN WTable ELSE <<>>)
              /\ cache' = (IF CacheWidths /\ res' = "ok" THEN [valid |-> TRUE, w |-> WTable] ELSE cache)
              /\ text' = (IF res' = "ok" THEN t ELSE <<>>)
              /\ phase' = "dumped"
-             /\ UNCHANGED <<mode, cls, beh, shape, para, parsed, nmut, hist>>
+             /\ UNCHANGED <<mode, cls, start, opt, shape, para, parsed, nmut, hist>>
 
 \* cls(text): every line of every structured field becomes a record
 Parse == /\ phase = "dumped" /\ res = "ok"
          /\ parsed' = [f \in DOMAIN text |-> MParseField(Subs(f), text[f], SplitEverySpace)]
          /\ phase' = "parsed" /\ text' = <<>>
          /\ hist' = (IF mode.maxmut > 0 THEN Append(hist, <<"dump", CaseF(parsed')>>) ELSE hist)
-         /\ UNCHANGED <<mode, cls, beh, shape, para, widths, res, nmut, cache>>
+         /\ UNCHANGED <<mode, cls, start, opt, shape, para, widths, res, nmut, cache>>
          /\ (Emit /\ Selected) => PrintT(<<"CASE", ToJson(CaseOf(parsed', hist'))>>)
 
 \* the parsed paragraph is an object like the one that was built: it can be dumped again
@@ -328,50 +374,78 @@ Load == /\ phase = "parsed" /\ mode.heavy /\ mode.maxmut = 0
         /\ para' = MUntag(parsed)
         /\ phase' = "build" /\ widths' = <<>> /\ text' = <<>> /\ parsed' = <<>>
         /\ cache' = NoCache
-        /\ UNCHANGED <<mode, cls, beh, shape, res, nmut, hist>>
+        /\ UNCHANGED <<mode, cls, start, opt, shape, res, nmut, hist>>
 
 \* ---- mutations of the object that was dumped; the next dump sees the new records
 Mutable == phase \in {"dumped", "parsed"} /\ res = "ok"
 AfterMut(entry) == /\ phase' = "build" /\ widths' = <<>> /\ text' = <<>> /\ parsed' = <<>>
                    /\ nmut' = nmut + 1
                    /\ hist' = (IF mode.maxmut > 0 THEN Append(hist, entry) ELSE hist)
-                   /\ UNCHANGED <<mode, cls, beh, shape, res>>
+                   /\ UNCHANGED <<mode, cls, start, shape, res>>
 \* obj[field].append(record): in place
 AppendRec(f, rec) == /\ Mutable /\ f \in DOMAIN para /\ para[f].form = "multi"
                      /\ Len(rec) = Len(Subs(f))
                      /\ para' = [para EXCEPT ![f].recs = Append(@, rec)]
-                     /\ UNCHANGED cache
+                     /\ UNCHANGED <<cache, opt>>
                      /\ AfterMut(<<"append", f, MPairs(rec)>>)
-\* obj[field][r]['size'] = token: in place
-SetSize(f, r, tok) == /\ Mutable /\ f \in DOMAIN para /\ r \in 1..Len(para[f].recs)
-                      /\ para' = [para EXCEPT ![f].recs[r][MSizeCol(Subs(f))] = tok]
-                      /\ UNCHANGED cache
-                      /\ AfterMut(<<"setsize", f, r, <<tok.id, tok.len>>>>)
+\* obj[field][r]['size'] = token: in place, position r only
+\* (negative control: every position of a PARSED list that holds the same content is the same object)
+SetSize(f, r, tok) ==
+    /\ Mutable /\ f \in DOMAIN para /\ r \in 1..Len(para[f].recs)
+    /\ LET rs == para[f].recs
+           hit == IF SharedEqualRecords /\ start.origin = "parsed"
+                  THEN {q \in 1..Len(rs) : rs[q] = rs[r]} ELSE {r}
+       IN  para' = [para EXCEPT ![f].recs = [q \in 1..Len(rs) |->
+                        IF q \in hit THEN [rs[q] EXCEPT ![MSizeCol(Subs(f))] = tok] ELSE rs[q]]]
+    /\ UNCHANGED <<cache, opt>>
+    /\ AfterMut(<<"setsize", f, r, <<tok.id, tok.len>>>>)
 \* obj[field] = [record, ...]: the whole list is replaced (or the field added) by assignment
-Assign(f, e) == /\ Mutable /\ f \in 1..NFields /\ MEntryOK(Subs(f), e)
+Assign(f, e) == /\ Mutable /\ f \in 1..NFields /\ MEntryOK(Subs(f), e) = TRUE
                 /\ para' = MExt(para, f, e)
-                /\ cache' = NoCache
+                /\ cache' = NoCache /\ UNCHANGED opt
                 /\ AfterMut(<<"assign", f, [r \in 1..Len(e.recs) |-> MPairs(e.recs[r])]>>)
 \* del obj[field]
 Delete(f) == /\ Mutable /\ f \in DOMAIN para
              /\ para' = [g \in DOMAIN para \ {f} |-> para[g]]
-             /\ cache' = NoCache
+             /\ cache' = NoCache /\ UNCHANGED opt
              /\ AfterMut(<<"delete", f>>)
-\* bounded enumeration: fresh tokens (ids beyond those of MMkRecs), sizes from the mode
+\* obj.size_field_behavior = v: state of THIS object
+SetBeh(v) == /\ cls = "Release" /\ v \in {Apt, Dak}
+             /\ opt' = [beh |-> v, set |-> TRUE, shared |-> IF ClassLevelOption THEN v ELSE opt.shared]
+             /\ cache' = NoCache /\ UNCHANGED para
+             /\ AfterMut(<<"setbeh", v>>)
+\* a step of ANOTHER live object of class c (created if need be; v # "-": its size_field_behavior
+\* is set to v; it is dumped): nothing of this object changes
+OtherSet(c, v) == /\ opt' = [opt EXCEPT !.shared = IF ClassLevelOption /\ c = "Release" /\ v # "-" THEN v ELSE @]
+                  /\ UNCHANGED <<para, cache>>
+                  /\ AfterMut(<<"other", c, v>>)
+\* bounded enumeration: the kinds of mutation of the mode; fresh tokens (ids beyond those of
+\* MMkRecs), sizes from the mode
 Fresh == 1000 * (nmut + 1)
+Kinds == ModeDef.kinds
 Mutate == /\ phase = "parsed" /\ nmut < mode.maxmut
-          /\ \E f \in DOMAIN para :
-               \/ /\ para[f].form = "multi" /\ Len(para[f].recs) < 3
-                  /\ \E n \in ModeMutSizes : AppendRec(f, MMkRecsOff(Subs(f), <<n>>, Fresh)[1])
-               \/ \E r \in 1..Len(para[f].recs) : \E n \in ModeMutSizes :
-                     /\ n # para[f].recs[r][MSizeCol(Subs(f))].len
-                     /\ SetSize(f, r, [id |-> Fresh + 500 + r, len |-> n])
-               \/ \E sh \in ModeShapes : Assign(f, [form |-> sh.form, recs |-> MMkRecsOff(Subs(f), sh.sizes, Fresh + 100)])
-               \/ Delete(f)
+          /\ \/ \E f \in DOMAIN para :
+                  \/ /\ "append" \in Kinds /\ para[f].form = "multi" /\ Len(para[f].recs) < 3
+                     /\ \E n \in ModeMutSizes : AppendRec(f, MMkRecsOff(Subs(f), <<n>>, Fresh)[1])
+                  \/ /\ "setsize" \in Kinds
+                     /\ \E r \in 1..Len(para[f].recs) : \E n \in ModeMutSizes :
+                           /\ n # para[f].recs[r][MSizeCol(Subs(f))].len
+                           /\ SetSize(f, r, [id |-> Fresh + 500 + r, len |-> n])
+                  \/ /\ "assign" \in Kinds
+                     /\ \E sh \in ModeShapes : Assign(f, [form |-> sh.form, recs |-> MMkRecsD(Subs(f), sh, Fresh + 100)])
+                  \/ "delete" \in Kinds /\ Delete(f)
+             \/ /\ "setbeh" \in Kinds /\ cls = "Release" /\ DOMAIN para # {}
+                /\ \E v \in {Apt, Dak} : (v # beh \/ ~opt.set) /\ SetBeh(v)
+             \/ /\ "other" \in Kinds /\ DOMAIN para # {}
+                /\ \E ov \in ModeDef.others : OtherSet(ov[1], ov[2])
+\* another object may also have been configured BEFORE this one is created
+PreOther == /\ phase = "build" /\ para = <<>> /\ hist = <<>> /\ nmut < mode.maxmut
+            /\ "other" \in Kinds
+            /\ \E ov \in ModeDef.others : OtherSet(ov[1], ov[2])
 
 Next == \/ /\ phase = "build" /\ Cardinality(DOMAIN para) < mode.maxf
            /\ \E sh \in (IF mode.uniform THEN {shape} ELSE ModeShapes) : \E f \in 1..NFields : Build(f, sh)
-        \/ Widths \/ Write \/ Parse \/ Load \/ Mutate
+        \/ Widths \/ Write \/ Parse \/ Load \/ Mutate \/ PreOther
 
 Spec == Init /\ [][Next]_vars
 
@@ -394,6 +468,9 @@ TypeOK == /\ phase \in {"build", "widths", "dumped", "parsed"} /\ res \in {"ok",
           /\ phase # "parsed" => parsed = <<>>
           /\ nmut <= mode.maxmut
           /\ ~CacheWidths => cache = NoCache
+          /\ opt.beh \in (IF cls = "Release" THEN {Apt, Dak} ELSE {"-"})
+          /\ ~opt.set => opt.beh = start.beh          \* an untouched Release is at the documented default
+          /\ ~start.set /\ cls = "Release" => start.beh = Apt
 
 \* dump() is defined for EVERY subset of the structured fields
 DumpTotal == phase # "build" => res = "ok"
@@ -414,6 +491,17 @@ DumpExplains == (Dumped /\ Heavy) => MExplains(Tables, cls, beh, para, text, TRU
 \* same tokens in the same order
 RecordsRoundTrip == phase = "parsed" => MUntag(parsed) = para
 LoadIsIdentity   == [][(phase = "parsed" /\ phase' = "build" /\ nmut' = nmut) => para' = para]_vars
+\* an in-place edit changes ONE position: the records at the other positions -- also those with
+\* the same content -- are what they were (modes with histories: hist names the step)
+EditIsLocal == [][(Len(hist') = Len(hist) + 1 /\ hist'[Len(hist')][1] = "setsize") =>
+                    LET e == hist'[Len(hist')] IN
+                    /\ DOMAIN para' = DOMAIN para
+                    /\ \A g \in DOMAIN para \ {e[2]} : para'[g] = para[g]
+                    /\ Len(para'[e[2]].recs) = Len(para[e[2]].recs)
+                    /\ \A q \in 1..Len(para[e[2]].recs) : q # e[3] => para'[e[2]].recs[q] = para[e[2]].recs[q]]_vars
+\* a step of another object changes nothing of this one
+OtherIsOther == [][(Len(hist') = Len(hist) + 1 /\ hist'[Len(hist')][1] = "other") =>
+                     (para' = para /\ opt'.beh = opt.beh /\ opt'.set = opt.set)]_vars
 
 \* every parsed record carries exactly the documented sub-field names, in the documented order
 SubFieldNames == phase = "parsed" =>
@@ -451,29 +539,48 @@ AllConfigs   == {<<"Dsc", "-">>, <<"Changes", "-">>, <<"BuildInfo", "-">>,
 PdiffConfig  == {<<"PdiffIndex", "-">>}
 SmallConfigs == AllConfigs \ PdiffConfig
 NoLookupConfigs == {<<"Dsc", "-">>, <<"Changes", "-">>, <<"BuildInfo", "-">>, <<"Release", Apt>>}
-HistConfigs  == {<<"Dsc", "-">>, <<"Changes", "-">>, <<"Release", Apt>>, <<"Release", Dak>>}
-
-Sh(form, sizes)      == [form |-> form, sizes |-> sizes]
+Sh(form, sizes)      == [form |-> form, sizes |-> sizes, dup |-> FALSE]
+ShDup(sizes)         == [form |-> "multi", sizes |-> sizes, dup |-> TRUE]
 MultiShapes(lens, k) == {Sh("multi", s) : s \in UNION {[1..n -> lens] : n \in 1..k}}
 SingleShapes(lens)   == {Sh("single", <<n>>) : n \in lens}
-\* a mode with histories: maxmut mutations (sizes of new tokens from mutsizes), fields 1..flimit
-HMode(name, configs, shapes, uniform, maxf, heavy, emitmod, maxmut, mutsizes, flimit) ==
+\* a mode with histories: maxmut steps of the kinds in `kinds` (sizes of new tokens from mutsizes),
+\* fields 1..flimit, objects built from records / parsed from text (origins), other live objects
+XMode(name, configs, shapes, uniform, maxf, heavy, emitmod, maxmut, mutsizes, flimit, kinds, origins, others) ==
     [name |-> name, configs |-> configs, shapes |-> shapes, uniform |-> uniform, maxf |-> maxf,
-     heavy |-> heavy, emitmod |-> emitmod, maxmut |-> maxmut, mutsizes |-> mutsizes, flimit |-> flimit]
+     heavy |-> heavy, emitmod |-> emitmod, maxmut |-> maxmut, mutsizes |-> mutsizes, flimit |-> flimit,
+     kinds |-> kinds, origins |-> origins, others |-> others]
+ListKinds == {"append", "setsize", "assign", "delete"}
+HMode(name, configs, shapes, uniform, maxf, heavy, emitmod, maxmut, mutsizes, flimit) ==
+    XMode(name, configs, shapes, uniform, maxf, heavy, emitmod, maxmut, mutsizes, flimit, ListKinds, {"built"}, {})
 Mode(name, configs, shapes, uniform, maxf, heavy, emitmod) ==
-    HMode(name, configs, shapes, uniform, maxf, heavy, emitmod, 0, {}, 99)
+    XMode(name, configs, shapes, uniform, maxf, heavy, emitmod, 0, {}, 99, {}, {"built"}, {})
 
 ShapesSubsetsQuick == {Sh("multi", <<17, 2>>), Sh("single", <<5>>)}
 ShapesSubsetsP1    == {Sh("multi", <<12>>)}
 ShapesSubsetsP     == {Sh("multi", <<18>>), Sh("multi", <<3, 10>>), Sh("multi", <<17, 2>>),
                        Sh("multi", <<16, 16>>), Sh("single", <<5>>)}
 ShapesSubsets      == {Sh("multi", <<1>>), Sh("multi", <<18>>), Sh("multi", <<3, 10>>), Sh("multi", <<17, 2>>),
-                       Sh("multi", <<16, 16>>), Sh("single", <<5>>), Sh("single", <<17>>)}
-ShapesRecordsQuick == MultiShapes({1, 2, 9, 15, 16, 17, 18}, 2) \cup SingleShapes({1, 16, 18})
-ShapesRecords      == MultiShapes(1..18, 2) \cup SingleShapes(1..18)
+                       Sh("multi", <<16, 16>>), Sh("single", <<5>>), Sh("single", <<17>>), ShDup(<<4, 4>>)}
+\* sizes beyond 18 digits: 2^31 and 2^32 have 10 digits, 2^63 and 10^18 have 19
+ShapesBig          == {Sh("multi", <<10>>), Sh("multi", <<19, 10>>), Sh("multi", <<10, 20>>), Sh("multi", <<25, 1>>),
+                       Sh("multi", <<19, 19>>), ShDup(<<9, 9>>), ShDup(<<19, 19>>)}
+ShapesRecordsQuick == MultiShapes({1, 9, 16, 17, 18}, 2) \cup SingleShapes({1, 16, 18}) \cup ShapesBig
+ShapesRecords      == MultiShapes(1..18, 2) \cup SingleShapes(1..18) \cup ShapesBig
+                         \cup MultiShapes({10, 19, 20, 25}, 2) \cup SingleShapes({19, 25})
 ShapesPairsQuick   == MultiShapes({1, 17}, 2) \cup SingleShapes({3})
 ShapesPairs        == MultiShapes({1, 16, 17}, 2) \cup SingleShapes({3, 17})
 ShapesHist         == {Sh("multi", <<2>>), Sh("multi", <<5, 2>>)}
+ShapesAlias        == {ShDup(<<5, 5>>), ShDup(<<2, 2, 2>>)}
+ShapesLive         == {Sh("multi", <<5, 2>>)}
+
+HistConfigs  == {<<"Dsc", "-">>, <<"Changes", "-">>, <<"Release", Apt>>, <<"Release", Dak>>}
+AliasConfigs == {<<"Dsc", "-">>, <<"Release", Dak>>, <<"PdiffIndex", "-">>}
+LiveConfigs  == {<<"Release", Apt>>, <<"Release", Dak>>, <<"Release", "default">>, <<"PdiffIndex", "-">>, <<"Dsc", "-">>}
+\* the other live objects: <<class, value assigned to its size_field_behavior ("-": none)>>
+LiveOthers   == {<<"Release", Apt>>, <<"Release", Dak>>, <<"PdiffIndex", "-">>, <<"Changes", "-">>}
+LiveOthersT  == LiveOthers \cup {<<"Release", "-">>, <<"Dsc", "-">>}
+LiveKinds    == {"setbeh", "other"}
+LiveKindsT   == {"setbeh", "other", "setsize"}
 
 \* quick tier (two TLC runs in parallel)
 ModesQuick ==
@@ -481,9 +588,11 @@ ModesQuick ==
     Mode("records",  AllConfigs,   ShapesRecordsQuick, FALSE, 1,  TRUE,  1),
     Mode("pairs",    SmallConfigs, ShapesPairsQuick,   FALSE, 2,  TRUE,  1),
     HMode("hist",    HistConfigs,  ShapesHist,         FALSE, 1,  TRUE,  3, 2, {1, 7}, 4),
-    HMode("histP",   PdiffConfig,  ShapesHist,         FALSE, 1,  TRUE,  3, 2, {1, 7}, 2) }
+    HMode("histP",   PdiffConfig,  ShapesHist,         FALSE, 1,  TRUE,  3, 2, {1, 7}, 2),
+    XMode("alias",   AliasConfigs, ShapesAlias,        FALSE, 1,  TRUE,  2, 2, {1, 7}, 2, {"setsize", "append"}, {"parsed"}, {}),
+    XMode("live",    LiveConfigs,  ShapesLive,         FALSE, 1,  TRUE,  3, 2, {7}, 1, LiveKinds, {"built"}, LiveOthers) }
 ModesQuickP ==
-  { Mode("subsetsP", PdiffConfig,  ShapesSubsetsP1,    TRUE,  14, FALSE, 16) }
+  { Mode("subsetsP", PdiffConfig,  ShapesSubsetsP1,    TRUE,  14, FALSE, 24) }
 \* thorough tier
 ModesThorough ==
   { Mode("subsets4", SmallConfigs, ShapesSubsets,      TRUE,  4,  TRUE,  1),
@@ -491,7 +600,9 @@ ModesThorough ==
     Mode("pairs",    AllConfigs,   ShapesPairs,        FALSE, 2,  TRUE,  5),
     Mode("full4",    SmallConfigs, ShapesPairsQuick,   FALSE, 4,  TRUE,  6),
     HMode("hist",    AllConfigs,   ShapesHist,         FALSE, 1,  TRUE,  2, 2, {1, 7, 17}, 4),
-    HMode("hist2",   AllConfigs,   ShapesHist,         FALSE, 2,  TRUE,  2, 1, {1, 7}, 4) }
+    HMode("hist2",   AllConfigs,   ShapesHist,         FALSE, 2,  TRUE,  2, 1, {1, 7}, 4),
+    XMode("alias",   AllConfigs,   ShapesAlias,        FALSE, 1,  TRUE,  2, 2, {1, 7}, 4, {"setsize", "append", "delete"}, {"parsed", "built"}, {}),
+    XMode("live",    LiveConfigs \cup {<<"Changes", "-">>}, ShapesLive, FALSE, 1, TRUE, 3, 2, {7}, 1, LiveKindsT, {"built", "parsed"}, LiveOthersT) }
 ModesThoroughP ==
   { Mode("subsetsP", PdiffConfig,  ShapesSubsetsP,     TRUE,  14, TRUE,  5) }
 \* negative controls (small)
@@ -499,4 +610,6 @@ ModesNegIterate   == { Mode("neg", AllConfigs,      ShapesSubsetsQuick, TRUE, 2,
 ModesNegIterateOk == { Mode("neg", NoLookupConfigs, ShapesSubsetsQuick, TRUE, 4, TRUE, 1) }
 ModesNegSplit     == { Mode("neg", AllConfigs,      ShapesSubsetsQuick, TRUE, 1, TRUE, 1) }
 ModesNegCache     == { HMode("neg", AllConfigs,     ShapesHist, FALSE, 1, TRUE, 1, 1, {7}, 2) }
+ModesNegShared    == { XMode("neg", AliasConfigs,   ShapesAlias, FALSE, 1, TRUE, 1, 1, {7}, 1, {"setsize"}, {"parsed", "built"}, {}) }
+ModesNegClassOpt  == { XMode("neg", LiveConfigs,    ShapesLive,  FALSE, 1, TRUE, 1, 2, {7}, 1, LiveKinds, {"built"}, LiveOthers) }
 =============================================================================
